@@ -5,6 +5,7 @@ use crate::util::*;
 use candid::types::subtype::{equal, subtype_check_all, subtype_with_config, Gamma, OptReport};
 use candid::types::{Type, TypeEnv, TypeInner};
 use candid_parser::utils::{service_compatibility_report, service_compatible, service_equal, CandidSource};
+use rand::Rng;
 use serde_json::{json, Map, Value};
 
 fn verdict(r: Result<bool, String>) -> Value { match r { Ok(true) => json!(1), Ok(false) => json!(0), Err(_) => json!(2) } }
@@ -160,6 +161,59 @@ pub fn template_case(idx: usize, g: &mut crate::gen::G) -> Value {
     json!({"idx": idx, "kind": "hist", "env": fl.nodes, "hist": h})
 }
 
+/// second memo-stress template: two mutually recursive families that agree or differ deep inside, queried through
+/// random constructor contexts (opt, vec, record, function argument/result, service method, and nestings of them)
+pub fn template2_case(idx: usize, g: &mut crate::gen::G) -> Value {
+    use candid::types::{Field, Function, FuncMode, Label};
+    use std::rc::Rc;
+    let var = |s: &str| -> Type { TypeInner::Var(s.to_string()).into() };
+    let rec = |fs: Vec<(u32, Type)>| -> Type { TypeInner::Record(fs.into_iter().map(|(i, t)| Field { id: Rc::new(Label::Id(i)), ty: t }).collect()).into() };
+    let prims = [TypeInner::Nat, TypeInner::Text, TypeInner::Int, TypeInner::Null];
+    let p1: Type = prims[g.rng_range(0, prims.len())].clone().into();
+    let p2: Type = if g.rng_range(0, 3) == 0 { p1.clone() } else { prims[g.rng_range(0, prims.len())].clone().into() };
+    let mut env = TypeEnv::new();
+    // left family A/C, right family B/D; the families differ (or not) only in the primitive deep inside
+    let link = g.rng_range(0, 3);
+    let wrap = |t: Type, k: usize| -> Type { match k { 0 => t, 1 => TypeInner::Opt(t).into(), _ => TypeInner::Vec(t).into() } };
+    env.0.insert("A".into(), rec(vec![(0, wrap(var("C"), link)), (1, p1)]));
+    env.0.insert("B".into(), rec(vec![(0, wrap(var("D"), link)), (1, p2)]));
+    env.0.insert("C".into(), rec(vec![(0, var("A"))]));
+    env.0.insert("D".into(), rec(vec![(0, var("B"))]));
+    fn ctx(g: &mut crate::gen::G, t: Type, depth: usize) -> (Type, Vec<usize>) {
+        let k = g.rng_range(0, 9);
+        let f = |args: Vec<Type>, rets: Vec<Type>, modes: Vec<FuncMode>| -> Type { TypeInner::Func(Function { modes, args, rets }).into() };
+        let inner = if depth > 0 && g.rng_range(0, 2) == 0 { ctx(g, t.clone(), depth - 1).0 } else { t.clone() };
+        let out: Type = match k {
+            0 => TypeInner::Opt(inner).into(),
+            1 => TypeInner::Vec(inner).into(),
+            2 => TypeInner::Record(vec![Field { id: Rc::new(Label::Id(0)), ty: inner }, Field { id: Rc::new(Label::Id(7)), ty: TypeInner::Opt(TypeInner::Nat.into()).into() }]).into(),
+            3 => f(vec![inner], vec![], vec![]),
+            4 => f(vec![], vec![inner], vec![FuncMode::Query]),
+            5 => TypeInner::Service(vec![("m".to_string(), f(vec![], vec![inner], vec![]))]).into(),
+            6 => TypeInner::Service(vec![("m".to_string(), f(vec![inner], vec![], vec![]))]).into(),
+            7 => TypeInner::Opt(TypeInner::Service(vec![("m".to_string(), f(vec![inner.clone()], vec![inner], vec![]))]).into()).into(),
+            _ => TypeInner::Variant(vec![Field { id: Rc::new(Label::Id(0)), ty: inner }]).into(),
+        };
+        (out, vec![k])
+    }
+    let names = [("A", "B"), ("C", "D"), ("B", "A"), ("D", "C"), ("A", "A"), ("C", "A")];
+    let mut fl = Flat::new(&env);
+    let mut pairs = vec![];
+    for _ in 0..3 {
+        let (l, r) = names[g.rng_range(0, names.len())];
+        if g.rng_range(0, 4) == 0 { pairs.push((var(l), var(r))); continue; }
+        // the same context on both sides (seeded identically), sometimes wrapped once more in opt on the right
+        let seed: u64 = g.rng.gen();
+        let mut g1 = crate::gen::G::new(seed); let mut g2 = crate::gen::G::new(seed);
+        let a = ctx(&mut g1, var(l), 1).0;
+        let b = ctx(&mut g2, var(r), 1).0;
+        let b = if g.rng_range(0, 4) == 0 { TypeInner::Opt(b).into() } else { b };
+        pairs.push((a, b));
+    }
+    let h = run_hist(&env, &mut fl, &pairs);
+    json!({"idx": idx, "kind": "hist", "env": fl.nodes, "hist": h})
+}
+
 pub fn run(o: &Opts) {
     let cases = read_cases(&o.cases);
     let mut out = Out::new();
@@ -171,7 +225,7 @@ pub fn run(o: &Opts) {
     let mut g = crate::gen::G::new(o.seed);
     for i in 0..o.n {
         // generators are advanced even for skipped cases so that a restarted worker sees the same cases
-        let v = if i % 4 == 3 { template_case(idx, &mut g) } else { rand_case(idx, &mut g) };
+        let v = match i % 4 { 3 => template_case(idx, &mut g), 2 => template2_case(idx, &mut g), _ => rand_case(idx, &mut g) };
         if idx >= o.start { out.emit(&v); }
         idx += 1;
     }
